@@ -224,6 +224,31 @@ theorem repaired_heals_rejected_entry (digest : Src → Nat) (σ : State) (i : N
   simp [exec, runs, List.replicate, step, hi, State.setProc, pstep, importStep, h', readSrc,
       fileAt, final, Dir.set, Dir.rmtree]
 
+/-- A lone request that finds no entry builds once and publishes it: it returns its module
+and afterwards the final path holds the complete module of its source. -/
+theorem repaired_rebuilds_absent_entry (digest : Src → Nat) (σ : State) (i : Nat) (s : Src)
+    (hi : (σ.procs i).pc = .unborn) (h : σ.dir (final (digest s)) = .absent) (c : Bool) :
+    ((exec .repaired digest σ (.spawn i s :: runs i c 13)).procs i).pc = .loaded s ∧
+    (exec .repaired digest σ (.spawn i s :: runs i c 13)).dir (final (digest s)) = .complete s := by
+  have h' : σ.dir (Path.shared (digest s) Kind.so) = .absent := h
+  constructor <;>
+  simp [exec, runs, List.replicate, step, hi, State.setProc, pstep, importStep, h', readSrc,
+      fileAt, final, Dir.set, Dir.rmtree]
+
+/-- **An external cache wipe between requests is harmless.**  Deleting the whole modules
+directory (`scripts/clear-cache.py` from another process) while no request is in progress
+keeps the invariant, so everything proved from `Inv` — safety, liveness, recovery — goes on
+holding afterwards, for fresh processes and for the later requests of long-lived ones. -/
+theorem wipe_keeps_invariant (digest : Src → Nat) (σ : State) (hσ : Inv digest σ)
+    (hq : σ.Quiescent) : Inv digest σ.wipe := wipe_inv hσ hq
+
+/-- … and the next request after the wipe recompiles, succeeds and republishes its entry. -/
+theorem request_after_wipe (digest : Src → Nat) (σ : State) (i : Nat) (s : Src)
+    (hi : (σ.procs i).pc = .unborn) (c : Bool) :
+    ((exec .repaired digest σ.wipe (.spawn i s :: runs i c 13)).procs i).pc = .loaded s ∧
+    (exec .repaired digest σ.wipe (.spawn i s :: runs i c 13)).dir (final (digest s)) = .complete s :=
+  repaired_rebuilds_absent_entry digest σ.wipe i s hi rfl c
+
 /-! ## the named assumptions are needed, and a tempting wrong repair is unsafe -/
 
 /-- Without digest injectivity even the repaired protocol hands out the wrong module: with a
